@@ -103,6 +103,8 @@ Inductive expr :=
 | EMapHas (m k : expr)                   (* _, ok := m[k] for a map[string]T *)
 | EMakeBytes (n : expr)                  (* make([]byte, n) *)
 | EMakeList (n : expr) (zero : value)    (* make([]T, n) *)
+| EMakeCap (n c : expr) (zero : value)   (* make([]T, n, c): panics unless 0 <= n <= c; the capacity is
+                                            not observable otherwise ([]byte: zero = VInt 0) *)
 | EUnsupported (why : string).
 
 Inductive lhs :=
@@ -124,6 +126,8 @@ Inductive stmt :=
 | SReturn (es : list expr)
 | SPanic
 | SCopy (dst : nat) (src : expr)                        (* copy(dst, src), dst a variable *)
+| SCopyAt (dst : nat) (off : expr) (src : expr)         (* copy(dst[off:], src) *)
+| SPutBe (w : nat) (dst : nat) (off : expr) (v : expr)  (* binary.BigEndian.PutUintN(dst[off:], v), N = 8w *)
 | SUnsupported (why : string).
 
 Record func := {
@@ -183,6 +187,7 @@ Definition in_bounds_incl (z : Z) (n : nat) : bool := (0 <=? z) && (z <=? Z.of_n
 Definition byte_val (n : N) : value := VInt (Z.of_N n).
 
 Definition is_neg (z : Z) : bool := z <? 0.
+Definition make_ok (n c : Z) : bool := (0 <=? n) && (n <=? c).    (* make([]T, n, c) does not panic *)
 
 Definition binop_int (op : binop) (x y : Z) : eres :=
   match op with
@@ -223,8 +228,14 @@ Definition binop_bool (op : binop) (a b : bool) : eres :=
   | _ => EStuck
   end.
 
-Definition is_nilish (v : value) : option bool :=   (* Some true = nil, Some false = non-nil error *)
-  match v with VNil => Some true | VErr => Some false | _ => None end.
+Definition is_nilish (v : value) : option bool :=   (* Some true = nil, Some false = non-nil error / map *)
+  match v with
+  | VNil => Some true
+  | VErr => Some false
+  | VMap _ => Some false
+  | VList _ => Some false       (* a non-nil map[K]struct{} (the translator compares only maps with nil) *)
+  | _ => None
+  end.
 
 Definition binop_val (op : binop) (a b : value) : eres :=
   match a, b with
@@ -283,6 +294,7 @@ Definition int_is (z : Z) (v : value) : bool := match v with VInt y => Z.eqb y z
 Definition has_val (vm vk : value) : eres :=
   match vm, vk with
   | VList l, VInt z => EV (VBool (existsb (int_is z) l))
+  | VNil, VInt _ => EV (VBool false)           (* lookup in a nil map *)
   | _, _ => EStuck
   end.
 
@@ -368,14 +380,24 @@ Fixpoint eval (e : env) (x : expr) {struct x} : eres :=
   | ELen64 a => ebind (eval e a) (fun va => match va with VInt z => EV (VInt (len64 z)) | _ => EStuck end)
   | EMakeBytes n => ebind (eval e n) (fun vn =>
                   match vn with
-                  | VInt z => if z <? 0 then EPanic else EV (VStr (repeat 0%N (Z.to_nat z)))
+                  | VInt z => if is_neg z then EPanic else EV (VStr (repeat 0%N (Z.to_nat z)))
                   | _ => EStuck
                   end)
   | EMakeList n zero => ebind (eval e n) (fun vn =>
                   match vn with
-                  | VInt z => if z <? 0 then EPanic else EV (VList (repeat zero (Z.to_nat z)))
+                  | VInt z => if is_neg z then EPanic else EV (VList (repeat zero (Z.to_nat z)))
                   | _ => EStuck
                   end)
+  | EMakeCap n c zero => ebind (eval e n) (fun vn => ebind (eval e c) (fun vc =>
+                  match vn, vc with
+                  | VInt z, VInt zc =>
+                      if negb (make_ok z zc) then EPanic
+                      else match zero with
+                           | VInt _ => EV (VStr (repeat 0%N (Z.to_nat z)))
+                           | _ => EV (VList (repeat zero (Z.to_nat z)))
+                           end
+                  | _, _ => EStuck
+                  end))
   | EUnsupported _ => EStuck
   end.
 
@@ -591,6 +613,38 @@ Definition exec_step (rec : stmt -> env -> outcome) (p : prog) (s : stmt) (e : e
           end
       | EPanic => OPanic
       | EStuck => OStuck
+      end
+  | SCopyAt dst off src =>
+      match eval e off, eval e src with
+      | EV (VInt o), EV vsrc =>
+          match get dst e, vsrc with
+          | VStr d, VStr s =>
+              if in_bounds_incl o (length d)
+              then ONormal (upd dst (VStr (firstn (Z.to_nat o) d ++ copy_into (skipn (Z.to_nat o) d) s)) e)
+              else OPanic
+          | VList d, VList s =>
+              if in_bounds_incl o (length d)
+              then ONormal (upd dst (VList (firstn (Z.to_nat o) d ++ copy_into (skipn (Z.to_nat o) d) s)) e)
+              else OPanic
+          | _, _ => OStuck
+          end
+      | EPanic, _ => OPanic
+      | EV _, EPanic => OPanic
+      | _, _ => OStuck
+      end
+  | SPutBe w dst off v =>
+      match eval e off, eval e v with
+      | EV (VInt o), EV (VInt z) =>
+          match get dst e with
+          | VStr d =>
+              if in_bounds_incl o (length d) && (w <=? length d - Z.to_nat o)%nat
+              then ONormal (upd dst (VStr (firstn (Z.to_nat o) d ++ be w (Z.to_N z) ++ skipn (Z.to_nat o + w) d)) e)
+              else OPanic
+          | _ => OStuck
+          end
+      | EPanic, _ => OPanic
+      | EV _, EPanic => OPanic
+      | _, _ => OStuck
       end
   | SUnsupported _ => OStuck
   end.
